@@ -246,7 +246,11 @@ def list_stream(ctx, res, n):
                                  ("+ own empty copy", lambda: proxy + proxy.copy()[0:0], lambda b: b + []),
                                  ("+ [item]", lambda: proxy + [ok_item], lambda b: b + [ok_item]),
                                  ("* 0", lambda: proxy * 0, lambda b: b * 0), ("* 2", lambda: proxy * 2, lambda b: b * 2), ("* -1", lambda: proxy * -1, lambda b: b * -1),
-                                 ("0 *", lambda: 0 * proxy, lambda b: 0 * b), ("* False", lambda: proxy * False, lambda b: b * False)]:
+                                 ("0 *", lambda: 0 * proxy, lambda b: 0 * b), ("* False", lambda: proxy * False, lambda b: b * False),
+                                 # a built-in list on the left: its items come first
+                                 ("[item] + typed", lambda: [ok_item] + proxy, lambda b: [ok_item] + b), ("[] + typed", lambda: [] + proxy, lambda b: [] + b),
+                                 ("[item, item] + typed + [item]", lambda: [ok_item, ok_item] + proxy + [ok_item], lambda b: [ok_item, ok_item] + b + [ok_item]),
+                                 ("sum([typed, typed], [item])", lambda: sum([proxy, proxy], [ok_item]), lambda b: sum([b, b], [ok_item]))]:
             before = list(proxy)
             try:
                 r = make()
@@ -267,6 +271,30 @@ def list_stream(ctx, res, n):
                     pass
                 if not c05.same(list(proxy), before):
                     res.violate("C17:operator-aliases-operand", "changing the result of `typed %s` changed the operand" % what, {"stream": "list", "item": item, "operator": what})
+        # sources that read the list being changed: the built-in consumes the whole right-hand side before it touches the list
+        for what, do in [("l[:] = l", lambda l: l.__setitem__(slice(None), l)), ("l[:] = reversed(l)", lambda l: l.__setitem__(slice(None), reversed(l))),
+                         ("l[:] = iter(l)", lambda l: l.__setitem__(slice(None), iter(l))), ("l[:] = (x for x in l)", lambda l: l.__setitem__(slice(None), (x for x in l))),
+                         ("l[:] = l[1:]", lambda l: l.__setitem__(slice(None), l[1:])), ("l[1:] = l", lambda l: l.__setitem__(slice(1, None), l)),
+                         ("l[0:] = reversed(l)", lambda l: l.__setitem__(slice(0, None), reversed(l))), ("l[::-1] = l", lambda l: l.__setitem__(slice(None, None, -1), l)),
+                         ("l[:0] = l", lambda l: l.__setitem__(slice(None, 0), l)), ("l.extend(l)", lambda l: l.extend(l)), ("l += l", lambda l: l.__iadd__(l)),
+                         ("l[:] = filter(None, l)", lambda l: l.__setitem__(slice(None), filter(lambda x: True, l)))]:
+            if len(proxy) > 24:
+                try:
+                    del proxy[8:]
+                except Exception:  # noqa
+                    break
+            builtin = list(proxy)
+            try:
+                do(builtin)
+                do(proxy)
+            except Exception as e:  # noqa
+                res.violate("C17:self-source-raised", "`%s` on a typed list raised %s" % (what, type(e).__name__), {"stream": "list", "item": item, "operation": what})
+                break
+            res.hist["lop:self-source"] += 1
+            if not c05.same(list(proxy), builtin):
+                res.violate("C17:list-differs:self-source", "`%s`: a typed list does not end up with what the built-in list ends up with" % what,
+                            {"stream": "list", "item": item, "operation": what, "proxy": [F.enc_val(x) for x in proxy], "builtin": [F.enc_val(x) for x in builtin]})
+                break
         res.case(stable([item, wire_ops]) if len(kinds_used) >= 3 and iter_nonlist else None,
                  sample={"item": item, "ops": wire_ops[:5]} if i < 2 else None, kind="list-history")
         for k in kinds_used:
